@@ -43,6 +43,16 @@ def gen_cases(tier, seed, focus="roundtrip"):
             if kind == "ascii" and L == 0:
                 continue
             yield {"id": "len/%s/%d" % (kind, L), "kind": "own", "files": [f, G.gen_file(r, "disk", length=r.choice([1, 300, 2400]), unique=1)], "order": None}
+    # (b2) large files: chains that run through most of the fill order (23+ granules on a blank disk, 9+ after 14 are taken)
+    for i, sizes in enumerate([[60000], [65535], [53000, 100], [14 * 2304 - 10, 9 * 2304 - 10, 100], [2000] * 14 + [25000], [30000, 30000, 30000],
+                               [7 * 2304 - 10, 7 * 2304 - 10, 12 * 2304 - 10, 500]] + ([[r_ * 2304 - 10] for r_ in range(20, 29)] if thorough else [])):
+        r = rng(seed, "disk", "big", i)
+        specs = []
+        for j, L in enumerate(sizes):
+            f = G.gen_file(r, "disk", length=L, unique=j)
+            f.update(type=2, dtype=0, kind="ml")
+            specs.append(f)
+        yield {"id": "big/%d" % i, "kind": "own", "files": specs, "order": None}
     # (c) permuted granule fill orders
     for i in range(1500 if thorough else 120):
         r = rng(seed, "disk", "perm", i)
